@@ -100,9 +100,12 @@ package ctfe
 //@ site UnmarshalBinary#1 as um
 //@ site checkAuditPath#1 as cap
 //@ site toHTTPStatus#1 as ths
+//@ site json.Marshal#1 as jm
 //@ site Write#1 as wr
 //@ requires li != nil && li.rpcClient != nil && li.RequestLog != nil && w != nil && r != nil
 //@ stable li
+//@ at jm assert [relays-backend-proof] rpc.called && after(rpc, rpc.res0.Proof.Hashes) != nil ==> jsonRsp.Consistency == after(rpc, rpc.res0.Proof.Hashes)
+//@ at jm assert [empty-proof-from-zero] !rpc.called ==> jsonRsp.Consistency == emptyProof
 //@ ensures [param-error-400-no-rpc] pr.res2 != nil ==> result0 == 400 && result1 != nil && !rpc.called
 //@ ensures [rpc-iff-first-nonzero] rpc.called <==> (pr.res2 == nil && pr.res0 != 0)
 //@ ensures [backend-error-mapped] rpc.called && rpc.res1 != nil ==> result0 == ths.res && result1 != nil && !wr.called
@@ -140,8 +143,10 @@ package ctfe
 //@ site UnmarshalBinary#1 as um
 //@ site checkAuditPath#1 as cap
 //@ site toHTTPStatus#1 as ths
+//@ site json.Marshal#1 as jm
 //@ site Write#1 as wr
 //@ requires li != nil && li.rpcClient != nil && li.RequestLog != nil && w != nil && r != nil
+//@ at jm assert [relays-first-proof] proofRsp.LeafIndex == after(rpc, rpc.res0.Proof[0].LeafIndex) && (after(rpc, rpc.res0.Proof[0].Hashes) != nil ==> proofRsp.AuditPath == after(rpc, rpc.res0.Proof[0].Hashes))
 //@ ensures [no-rpc-is-400] !rpc.called ==> result0 == 400 && result1 != nil
 //@ ensures [rpc-only-after-validation] rpc.called ==> len(fvh.res) != 0 && dec.res1 == nil && pi.err == nil && pi.i >= 1
 //@ ensures [backend-error-mapped] rpc.called && rpc.res1 != nil ==> result0 == ths.res && result1 != nil && !wr.called
